@@ -62,13 +62,15 @@ CARDS = [1, 2, 2, 3, 3, 4, 5, 6, 8]
 
 
 @st.composite
-def dataset_spec(draw, min_n=1, max_n=120, n=None, max_f=6, min_card=1, nonconst=False):
+def dataset_spec(draw, min_n=1, max_n=120, n=None, max_f=6, min_card=1, nonconst=False, long_ok=True):
     """nonconst: ensure_rep with n_samples > cardinality >= 2, so that every column takes >= 2 values."""
     card = draw(st.sampled_from([c for c in CARDS if c >= (max(2, min_card) if nonconst else min_card)
                                  and (n is None or not nonconst or c < max(n, 3))]))
     if nonconst:
         min_n = max(min_n, card + 1)
     ns = n if n is not None else draw(st.one_of(st.integers(min_n, min(max_n, min_n + 12)), st.integers(min_n, max_n)))
+    if long_ok and n is None and max_n >= 100 and draw(st.integers(0, 39)) == 0:
+        ns = draw(st.integers(33_000, 50_000))        # now and then a data set longer than any internal row block
     return {'nf': draw(st.integers(1, max_f)), 'ns': ns, 'card': card, 'seed': draw(st.integers(0, 2**32 - 1)),
             'own_domains': draw(st.booleans()), 'rep': nonconst,
             # value range [low, low + card - 1] of the default (non-structure) columns, as in C19: offset / id-like codes
@@ -135,11 +137,11 @@ def check_prefix(Z, X0, X, added, what, kind):
 
 @st.composite
 def corr_case(draw):
-    ds = draw(dataset_spec(min_n=3, max_n=400, nonconst=draw(st.sampled_from([True, True, False]))))
+    ds = draw(dataset_spec(min_n=3, max_n=400, nonconst=draw(st.sampled_from([True, True, False])), long_ok=False))   # generate_correlated is quadratic in the rows
     r = draw(st.one_of(st.sampled_from(R_SPECIAL), st.floats(-0.999, 0.999, allow_nan=False),
                        st.builds(lambda a, sgn: a * sgn, st.floats(0.05, 0.95), st.sampled_from([1.0, -1.0]))))
-    if draw(st.integers(0, 9)) == 0:
-        ds['ns'] = draw(st.integers(2049, 7000))      # more rows than any internal processing block
+    if draw(st.integers(0, 29)) == 0:
+        ds['ns'] = draw(st.integers(2049, 4500))      # more rows than any internal processing block (the generator is quadratic in the rows)
     return {'ds': ds, 'sel': draw(selection(ds['nf'])), 'r': r, 'np_seed': draw(st.integers(0, 2**32 - 1))}
 
 
@@ -412,6 +414,7 @@ def oracle_labels(case, rec, kind='C20/labels'):
             raise Violation(f'labels are not a non-decreasing step function of the decision value: decision {s[i - 1]!r} -> '
                             f'class {ys[i - 1]}, decision {s[i]!r} -> class {ys[i]}')
     checked = 0
+    ys_arr = np.asarray(ys)
     for c, q in enumerate(qs, start=1):
         t = q * (n - 1)
         j = math.floor(t)
@@ -420,7 +423,7 @@ def oracle_labels(case, rec, kind='C20/labels'):
             rec.cls('cut-tied')
             continue
         checked += 1
-        got = sum(1 for v in ys if v < c)
+        got = int((ys_arr < c).sum())
         allowed = {j + 1} if (not integral or dyadic) else {j, j + 1}
         rec.cls('cut-exact' if len(allowed) == 1 else 'cut-integral-nondyadic')
         if got not in allowed:
